@@ -59,6 +59,10 @@ QUERIES = [
     ("dx.concat([L.a, R.a])", True, 2, None, "concat"),
     ("L.set_index('a', divisions=[-100, 0, 100])", False, 1, None, "set_index"),
     ("L.set_index('c', divisions=[-5, 1, 2, 5]).b", False, 1, None, "set_index"),
+    # head / tail of an indexed frame are rewritten into an n-smallest / n-largest selection: the options of set_index have to survive
+    ("L.set_index('a', drop=False, divisions=[-100, 0, 100]).head(2, compute=False)", False, 1, None, "set_index-head"),
+    ("L.set_index('a', drop=False, divisions=[-100, 0, 100]).tail(2, compute=False)", False, 1, None, "set_index-head"),
+    ("L.set_index('a', divisions=[-100, 0, 100]).head(3, compute=False)", False, 1, None, "set_index-head"),
     ("L.a.cumsum()", True, 1, None, "cumulative"),
     ("L.cumsum()", True, 1, None, "cumulative-known"),
     ("L.cummin()", True, 1, None, "cumulative-known"),
